@@ -1277,6 +1277,43 @@ fn gen_case(rng: &mut Rng, idx: usize) -> Vec<String> {
             last_flush = now;
             ops.push(format!("flush {now}"));
         }
+        // regime-swing micro-burst: load up the queues under the HighLoad threshold, let a
+        // housekeeping pass downshift the regime before the flush tick, keep the burst going
+        if rng.chance(1, 45) {
+            for j in 0..n {
+                ops.push(format!("setlink {j} br={}", 20_000_000.0f64.to_bits()));
+            }
+            ops.push(format!("hk {now}"));
+            ka_times.push(now);
+            ops.push(format!("flush {now}"));
+            last_flush = now;
+            let a = rng.range(17, 26) * n as u64;
+            for _ in 0..a {
+                ops.push(format!("client {now} {}", hexs(&data_packet(seq, false, 24, counter, rng))));
+                counter += 1;
+                sent.push(seq);
+                seq = (seq + 1) & 0x7fff_ffff;
+            }
+            for j in 0..n {
+                let br: f64 = *rng.pick(&[100_000.0, 1_000_000.0]);
+                ops.push(format!("setlink {j} br={}", br.to_bits()));
+            }
+            now += rng.below(6);
+            ops.push(format!("hk {now}"));
+            let b = rng.range(10, 18) * n as u64;
+            for _ in 0..b {
+                ops.push(format!("client {now} {}", hexs(&data_packet(seq, false, 24, counter, rng))));
+                counter += 1;
+                sent.push(seq);
+                seq = (seq + 1) & 0x7fff_ffff;
+            }
+            while sent.len() > 64 {
+                sent.remove(0);
+            }
+            now += 15;
+            ops.push(format!("flush {now}"));
+            last_flush = now;
+        }
         let i = rng.below(n as u64) as usize;
         let pick = if in_bh && rng.chance(3, 4) { rng.below(18) } else { rng.below(40) };
         match pick {
